@@ -48,4 +48,17 @@ def refIsRecent (now tip : Int) (refsDays offsetDays : Nat) : Bool :=
 def commitIsRecent (tip t : Int) (commitsDays offsetDays : Nat) : Bool :=
   commitsDays != 0 && decide (tip - ((commitsDays + offsetDays : Nat) : Int) * 86400 ≤ t)
 
+/-- a ref as the recent-refs / recent-commits tasks see it: the time of its tip commit and, for every
+    commit reachable from it, the commit's time and the previous versions (object ids) that commit replaced -/
+structure RefT where
+  isHead : Bool
+  tip : Int
+  commits : List (Int × List Oid)
+
+/-- pruneTaskGetRetainedCurrentAndRecentRefs / …PreviousVersionsOfRef: HEAD and every recent ref are
+    kept; for each of THEM the recent-commits window is measured from ITS OWN tip -/
+def retainedRecent (now : Int) (refsDays commitsDays offsetDays : Nat) (refs : List RefT) : List Oid :=
+  (refs.filter fun r => r.isHead || refIsRecent now r.tip refsDays offsetDays).flatMap fun r =>
+    (r.commits.filter fun c => commitIsRecent r.tip c.1 commitsDays offsetDays).flatMap (·.2)
+
 end Pr
